@@ -41,3 +41,35 @@ Proof.
   - unfold splice. cbn [ilen]. lia.
   - rewrite splice_get_media. f_equal. lia.
 Qed.
+
+(* ... and the same, with the spliced file read by the SPECIFICATION ITSELF: its tiling, its last moov box, the chunk-offset tables
+   of that box's payload (resanitize_structure: that payload is the returned moov payload) - so the statement no longer mentions
+   the returned metadata except through the file the caller writes; the second run's result (C02 b) comes with it *)
+Theorem spliced_file_addresses_same_bytes :
+  forall (cfg : config) (lenient lenient2 : bool) (inp : input) (fuel fuel2 : nat) (o : out) (md : bytes) (pad : N),
+  max_metadata_size cfg < 4294967296 -> ilen inp <= U64MAX ->
+  (forall t, cumulative_mdat_box_size cfg = Some t -> t <= U32MAX) ->
+  mp4_sanitize cfg lenient U64MAX' inp fuel = Ok o -> o_metadata o = Some (md, pad) ->
+  let off := s_off (o_data o) in
+  let len := s_len (o_data o) in
+  let J := splice md pad inp off len in
+  ilen J <= U64MAX -> (N.to_nat (ilen J / 8) < fuel2)%nat ->
+  exists bs m ts bs2 m2,
+    tiling (cumulative_mdat_box_size cfg) inp = Some bs /\ last_moov bs = Some m /\ co_tables (tb_payload inp m) = Some ts /\
+    tiling (cumulative_mdat_box_size cfg) J = Some bs2 /\ last_moov bs2 = Some m2 /\
+    let new := fun e : N => Z.to_N (Z.of_N e + (Z.of_N (blen md + pad) - Z.of_N off)) in
+    co_tables (tb_payload J m2) = Some (map (fun t : N * list N => (fst t, map new (snd t))) ts) /\
+    (forall t e k, In t ts -> In e (snd t) -> off <= e + k < off + len ->
+       new e + k < ilen J /\ iget J (new e + k) = iget inp (e + k)) /\
+    mp4_sanitize cfg lenient2 U64MAX' J fuel2 = Ok {| o_metadata := None; o_data := {| s_off := blen md + pad; s_len := len |} |}.
+Proof.
+  intros cfg lenient lenient2 inp fuel fuel2 o md pad Hm Hl Hc H E off len J HJ Hf.
+  destruct (same_media_byte cfg lenient inp fuel o md pad Hl Hc H E) as (bs & m & fp & mp' & psz & ts & T & Lm & S & CT & R).
+  cbv zeta in R. destruct R as [CT' B].
+  destruct (resanitize_structure cfg inp lenient lenient2 Hm Hl Hc fuel fuel2 o md pad H E HJ Hf)
+    as (bs2 & m2 & fp2 & mp2 & psz2 & Shape & T2 & L2 & Pm & R2).
+  rewrite S in Shape. injection Shape as _ Emp _. subst mp2.
+  exists bs, m, ts, bs2, m2.
+  split; [exact T|]. split; [exact Lm|]. split; [exact CT|]. split; [exact T2|]. split; [exact L2|]. cbv zeta.
+  split; [fold off len J in Pm; rewrite Pm; exact CT'|]. split; [exact B | exact R2].
+Qed.
